@@ -67,6 +67,12 @@ def judgeFmt (which : String) (text : List Char) (sp : Bool) (ts : Nat) (impl : 
           else if diagKinds text != diagKinds newText then "bad:C09:diagnostics-changed"
           else "ok"
       | "10" =>
+        (match ans with
+         | some (r, _) =>
+           let e := LspPos.position text (utf8Len text)
+           if r != s!"0:0-{e.line}:{e.col}" then s!"bad:C10:edit-range-{r}-is-not-the-whole-document-0:0-{e.line}:{e.col}:old-lines-(and-their-comments)-stay-behind-the-new-text" else ""
+         | none => "") |> fun pre =>
+        if pre != "" then pre else
         match LexSpec.lex newText with
         | none => "bad:C10:formatted-text-is-not-lexically-valid"
         | some t1 =>
